@@ -79,7 +79,7 @@ def repr_def(rng, did, n=None, repr_=None, anchored=None, kinds="mixed", generic
         kind = "unit" if kinds == "unit" else rng.choice(["unit", "unit", "unit", "tuple", "named"])
         nf = 0 if kind == "unit" else rng.choice([0, 1, 2])
         fs = SC.rand_fields(rng, kind, nf, generics)
-        v = IG.decorate(rng, variant(IG.IDS[i], kind, fs, dis=(rng.random() < 0.3) and not for_disc))
+        v = IG.decorate(rng, variant(IG.ids_for(did)[i], kind, fs, dis=(rng.random() < 0.3) and not for_disc))
         if explicit:
             v["disc"] = [val - anchor]
             if anchored:
